@@ -13,6 +13,16 @@ type c18Op struct {
 }
 
 func c18Publish(bus *eventbus.EventBus, o c18Op) {
+	msg, ctrl := c18Build(o)
+	if ctrl != nil {
+		eventbus.Publish(bus, *ctrl)
+		return
+	}
+	eventbus.Publish(bus, *msg)
+}
+
+// c18Build builds the protocol message of one operation with the helper constructors.
+func c18Build(o c18Op) (*ChangeMessage, *ControlMessage) {
 	var msg *ChangeMessage
 	var err error
 	switch o.kind {
@@ -35,19 +45,16 @@ func c18Publish(bus *eventbus.EventBus, o c18Op) {
 			msg, err = Delete[entB](o.key)
 		}
 	case 3:
-		eventbus.Publish(bus, *Reset(""))
-		return
+		return nil, Reset("")
 	case 4:
-		eventbus.Publish(bus, *SnapshotStart("s"))
-		return
+		return nil, SnapshotStart("s")
 	case 5:
-		eventbus.Publish(bus, *SnapshotEnd("s"))
-		return
+		return nil, SnapshotEnd("s")
 	case 6:
 		msg, err = Insert(o.key, entUnreg{V: o.val})
 	}
 	vAssert(err == nil && msg != nil, "helper-ok")
-	eventbus.Publish(bus, *msg)
+	return msg, nil
 }
 
 // c18Want folds ops[:upto] for (typ, probe): the last write not followed by a delete or reset.
@@ -218,6 +225,19 @@ func c18Fold(M int, focused bool) {
 		if ops[i].kind == 4 || ops[i].kind == 5 {
 			snaps++
 		}
+	}
+	if focused {
+		// the same messages handed to the materializer directly (no event, no offset)
+		direct := c18New(false)
+		for i := 0; i < M; i++ {
+			msg, ctrl := c18Build(ops[i])
+			if ctrl != nil {
+				direct.m.ApplyControlMessage(ctrl)
+			} else {
+				vAssert(direct.m.ApplyChangeMessage(msg) == nil, "direct-apply-ok")
+			}
+		}
+		direct.check(ops, M, probe, eventbus.OffsetOldest, "direct")
 	}
 	vAssert(one.resets == resets && one.snaps == snaps, "callbacks-once-per-control-message")
 	vAssert(two.resets == resets && two.snaps == snaps, "two-sessions-apply-each-message-once")
